@@ -13,6 +13,7 @@ inductive Val where
   | vec (v : Vec)
   | sv (b : BV)                        -- spec-level vector: matches any `vec` with Inv and this abstraction
   | nat (n : Nat)
+  | capv (n : Nat)                     -- model-level: a capacity (policy-dependent; only the L0 inequality is binding)
   | natPred (f : Nat → Bool)           -- spec-level: any number satisfying `f`
   | bool (b : Bool)
   | obit (o : Option Bool)
@@ -118,6 +119,7 @@ def showVal : Val → String
   | .vec v => showVec v
   | .sv b => s!"SV:{b.len}:{hexOf b.val}"
   | .nat n => s!"n:{n}"
+  | .capv n => s!"n:{n}"
   | .natPred _ => "n:?"
   | .bool b => if b then "B:1" else "B:0"
   | .obit none => "O:-"
@@ -166,6 +168,7 @@ the `Bv` variant are not compared -/
 def valAgree : Val → Val → Bool
   | .vec a, .vec b => tyEq a b && a.len == b.len && a.invB == b.invB && a.abs == b.abs
   | .nat a, .nat b => a == b
+  | .nat _, .capv _ => true          -- capacities are compared with the L0 inequality, not with the model's policy
   | .bool a, .bool b => a == b
   | .obit a, .obit b => a == b
   | .ord a, .ord b => a == b
@@ -178,6 +181,7 @@ def valAgree : Val → Val → Bool
 def valMeets : Val → Val → Bool
   | .vec a, .sv b => a.invB && a.abs == b
   | .nat a, .natPred f => f a
+  | .capv a, .natPred f => f a
   | _, .any => true
   | a, b => valAgree a b
 
